@@ -110,8 +110,10 @@ def _calc_crowding_distance(population: list[FrozenTrial]) -> defaultdict[int, f
 
 def _crowding_distance_sort(population: list[FrozenTrial]) -> None:
     manhattan_distances = _calc_crowding_distance(population)
-    population.sort(key=lambda x: manhattan_distances[x.number])
-    population.reverse()
+    # Trials with the same crowding distance are ordered by their numbers. Their order must not be
+    # inherited from ``_calc_crowding_distance``, which leaves the population sorted by the raw
+    # values of the last objective, i.e., in an order that depends on the study direction.
+    population.sort(key=lambda x: (-manhattan_distances[x.number], x.number))
 
 
 def _rank_population(
